@@ -81,6 +81,7 @@ def run(ctx):
         if any(not g for _, _, g in hits):
             pass        # not this property's scope
     reach = sorted(q for q in repo.reachable([cle.qualname]) if q.startswith(TE + "."))
+    s_cle = sym.summarize(repo, cle.qualname)
     n = 0
     for q in reach:
         fq = repo.functions[q]
@@ -95,6 +96,49 @@ def run(ctx):
         if not bad:
             ctx.ok("DIV", f"{q} / DIV / no unguarded coordinate-difference denominator", ctx.where(fq), f"{len(hits)} guarded")
     ctx.count("DIV", "functions reachable from create_lattice_elements", n, 4)
+
+    # ================================================================== every region is examined; cells for all bounded regions
+    ctx.clause("one cell for every bounded region below the cut-off: every region is examined and no bounded region is skipped")
+    n_it = 0
+    for q in reach:
+        fq = repo.functions[q]
+        sq = sym.summarize(repo, q)
+        for e in sq.events:
+            if not (e.kind == "call" and isinstance(e.fname, tuple) and e.fname[1] in ("remove", "pop", "insert", "append", "clear") and e.recv is not None):
+                continue
+            n_it += 1
+            for g in e.loops():
+                it = g[2]
+                # the receiver is the (loop-carried) list whose initial value is being iterated
+                recv = e.recv
+                init = sq.loop_init.get((recv[1], recv[2])) if recv[0] == "lc" else recv
+                if init is not None and it == init and e.fname[1] in ("remove", "pop", "insert", "clear"):
+                    ctx.violation("ITER", f"{q} / ITER / list mutated while it is iterated", ctx.where(fq, e.node),
+                                  f"`{fq.module.line(e.node.lineno)}` removes from the list the enclosing loop iterates: the element after each removed one is never examined")
+    ctx.ok("ITER", f"{TE} / ITER / list mutations inside loops scanned", ctx.where(cle), f"{n_it} mutator calls examined")
+    ri = repo.func(f"{TE}.remove_infinite_regions")
+    sri = sym.summarize(repo, ri.qualname)
+    tess, regs, md = (T.sym(p) for p in ri.params[:3])
+    rm = [e for e in sri.events if e.kind == "call" and isinstance(e.fname, tuple) and e.fname[1] == "remove" and e.loops()]
+    ok = False
+    for e in rm:
+        it = e.loops()[-1][2]
+        if it[0] == "map" and it[3] == regs and it[1] == it[2]:
+            b = it[2]
+            poly = ("map", T.call("list", (T.idx(T.attr(tess, "vertices"), ("bv", 1)),)), ("bv", 1), b, T.TRUE)
+            far = T.cmp("Gt", T.call("numpy.max", (T.call(f"{TE}.distance_matrix", (poly,)),)), md)
+            want = T.b_and(T.ige(T.call("len", (b,)), 1), T.b_not(("in", T.num(-1), b)), far)
+            ok = T.alpha(it[4]) == T.alpha(want) and e.args == (("bv", e.loops()[-1][1]),)
+    ctx.check(ok, "GUARD", f"{ri.qualname} / GUARD / removed iff bounded and its largest corner distance exceeds max_distance", ctx.where(ri),
+              "regions with len != 0, no -1 and max(distance_matrix) > max_distance are collected first and removed afterwards",
+              "the over-size filter no longer removes exactly the bounded regions whose diameter exceeds max_distance")
+    cellst = [e for e in s_cle.stores() if e.sub and e.attr and e.attr.startswith("$") and any(x[0] == "call" and x[1] == f"{TE}.get_cell_area_sign" for x in T.subterms(e.key))]
+    okc = bool(cellst)
+    for e in cellst:
+        c = ("bv", e.loops()[0][1])
+        okc = okc and set(e.conds()) == {T.ige(T.call("len", (c,)), 1), T.b_not(("in", T.num(-1), c))}
+    ctx.check(okc, "GUARD", f"{cle.qualname} / GUARD / a cell is built for every non-empty region without an infinite corner", ctx.where(cle),
+              "guard = len(c) != 0 and -1 not in c", f"cells are built under {[T.show(T.alpha(x))[:80] for e in cellst for x in e.conds()]}: bounded regions (e.g. triangles) are skipped")
 
     # ================================================================== rounding
     ctx.clause("corner points are rounded to three decimals")
@@ -233,6 +277,9 @@ def run(ctx):
 
 _P = "forsys/tessellation.py"
 PINNED = [
+    ("over-size regions removed while iterating", _P, "            if np.max(matrix) > max_distance:\n                to_delete.append(c)\n    for c in to_delete:\n        regions.remove(c)", "            if np.max(matrix) > max_distance:\n                regions.remove(c)"),
+    ("triangular regions get no cell", _P, "        if len(c) != 0 and -1 not in c:\n            # add first to close the cell_vertices", "        if len(c) > 3 and -1 not in c:\n            # add first to close the cell_vertices"),
+    ("cut-off compares the mean distance", _P, "            if np.max(matrix) > max_distance:", "            if np.mean(matrix) > max_distance:"),
     ("F5 reintroduced: slope-intercept interpolation of y", _P, """                y_coordinate = np.around(np.linspace(round(tessellation.vertices[c[ii]][1], 3),
                                                     round(tessellation.vertices[c[ii + 1]][1], 3), 2), 3)""",
      """                y_coordinate = np.around(line_eq(tessellation.vertices[c[ii]],
